@@ -576,6 +576,19 @@ func (sc *SpecCtx) evalCall(x *SCall) Term {
 		}
 		n := *sc
 		n.st = sc.old
+		// captured variables of a closure are bound to their CURRENT values in a contract's environment (a closure may
+		// assign them); inside old() they mean their values on entry
+		if sc.c != nil && len(sc.c.captured) > 0 {
+			env := copyEnv(sc.env)
+			for v := range sc.c.captured {
+				if t, ok := sc.old.vars[v]; ok {
+					if _, bound := env[v.Name()]; bound {
+						env[v.Name()] = t
+					}
+				}
+			}
+			n.env = env
+		}
 		return n.eval(x.Args[0])
 	case "len":
 		argn(1)
